@@ -314,7 +314,14 @@ func c15Case(fnS, opts, ret string) *hcase {
 				return nil, "err:" + classifyCheckErr(err)
 			}
 			applyOpts(fi, opts)
-			return fi.Wrap(), ""
+			h := fi.Wrap()
+			// the handler is fixed by the settings at the time of Wrap: changing them on the same FuncInfo
+			// afterwards (and wrapping again) must not affect it
+			invStrict := map[byte]byte{'u': 't', 't': 'f', 'f': 't'} // default: not strict
+			invArray := map[byte]byte{'u': 'f', 't': 'f', 'f': 't'}  // default: arrays allowed
+			applyOpts(fi, string([]byte{invStrict[opts[0]], invArray[opts[1]]}))
+			_ = fi.Wrap()
+			return h, ""
 		},
 		oracle: func(view pview, raw string) string {
 			if !(fd.kind == 'F' && len(fd.ins) == 2 && !(fd.ins[1].k == 'P' && fd.ins[1].elem.k == 'q')) {
